@@ -143,7 +143,11 @@ def grouping_cases(c, table, nrand, depth=4):
         for t in [G.binop(o1, G.un("-", A), G.post(B, "++")), G.un("!", G.binop(o1, A, B)), G.post(G.binop(o1, A, B), "--"),
                   G.tern(G.binop(o1, A, B), C_, D), G.binop(o1, G.tern(A, B, C_), D), G.binop(o1, A, G.tern(B, C_, D)),
                   G.tern(A, G.binop(o1, B, C_), G.tern(B, C_, G.binop(o1, A, D))), G.tern(G.tern(A, B, C_), D, A),
-                  G.un("-", G.post(A, "++")), G.post(G.un("-", A), "++"), G.un("not", G.un("not", G.binop(o1, A, B)))]:
+                  G.un("-", G.post(A, "++")), G.post(G.un("-", A), "++"), G.un("not", G.un("not", G.binop(o1, A, B))),
+                  # every postfix operator after an operand belongs to it, also under a prefix operator
+                  G.un("-", G.post(G.post(A, "++"), "--")), G.post(G.post(A, "++"), "--"),
+                  G.binop(o1, G.un("!", G.post(G.post(A, "--"), "++")), G.un("-", G.un("-", G.post(G.post(G.post(B, "++"), "++"), "--")))),
+                  G.post(G.un("-", G.post(A, "++")), "--")]:
             cases.append((G.join_tokens(rd_min.program(t)), t))
             cases.append((G.join_tokens(rd_pre.program(t)), t))
     ag = G.AstGen(rng.fork(), table, max_depth=depth)
